@@ -12,1154 +12,1133 @@ Definition show_fres (r : fres) : string :=
   end.
 Definition check (rs : list rune) : string := digest (show_fres (format_res rs)).
 Definition full (rs : list rune) : string := show_fres (format_res rs).
-Eval vm_compute in ("<<<M1555>>>" ++ check (runes_of_ascii "
+Eval vm_compute in ("<<<M1477>>>" ++ check (runes_of_ascii "
+options
+{
 
-  options {
-    StringPrefixLenType
-= u16	;  ArrayPrefixLenType
-=u16
-	;	} packet
-	SampleBinary { 
-uint16	MsgType`" ++ [28040; 24687; 31867; 22411]%N ++ runes_of_ascii "`
-
-    ,u16
-
-    BodyLenght	@lengthOf(
-Body
-
-) `" ++ [28040; 24687; 20307; 38271; 24230]%N ++ runes_of_ascii "`, match
-	MsgType  as 
-Body	{
-    1:
-Logon  ,  2
-: Logout 
-,
-
-    3 
-:
-
-    Heartbeat
-    , 
-4
-:
-RiskControlRequest , 
-5  :	RiskControlResponse
-
-    , },
-@calculatedFrom(	""CRC32""
-
-    )u32 Ckecksum
-
-    `" ++ [26657; 39564; 21644]%N ++ runes_of_ascii "`  ,	}
-packet
-
-    Logon  {  @leftPad 
-( '0' )
-char[ 10 
-]
-UserName
-`" ++ [29992; 25143; 21517]%N ++ runes_of_ascii "`
-
-    , 
-string Password`" ++ [23494; 30721]%N ++ runes_of_ascii "`, 
-uint64
-ClientId `" ++ [23458; 25143; 31471]%N ++ runes_of_ascii "ID`
-	,	u16	HeartbeatInterval `" ++ [24515; 36339; 38388; 38548]%N ++ runes_of_ascii "`	,
-
-    }
-packet Logout
-	{
-@rightPad(
-'0'
-) char[
-    10]
-    UserName
-`" ++ [29992; 25143; 21517]%N ++ runes_of_ascii "`	,
-    uint64  ClientId`" ++ [23458; 25143; 31471]%N ++ runes_of_ascii "ID`, 
+    StringPrefixLenType  =  u16 
+; ArrayPrefixLenType =
+u16 ; 
 }
 packet
-	Heartbeat
+SampleBinary
 
-    {}
-packet
+    { 
+uint16 MsgType`" ++ [28040; 24687; 31867; 22411]%N ++ runes_of_ascii "`, 
+u16
+BodyLenght @lengthOf(
+	Body	)	`" ++ [28040; 24687; 20307; 38271; 24230]%N ++ runes_of_ascii "` ,	match
 
-    RiskControlRequest
-    {
-string UniqueOrderId
-
-    `" ++ [21807; 19968; 35746; 21333; 21495]%N ++ runes_of_ascii "`
+    MsgType
+as Body
+	{
+1:
+Logon
+, 2
+    :Logout
     ,
-char[
-	16  ]
-ClOrdID
-
-    `" ++ [23458; 25143; 35746; 21333; 21495]%N ++ runes_of_ascii "`,
-    char[
-
-    3]
-	MarketID
-`" ++ [24066; 22330]%N ++ runes_of_ascii "id` 
-, 
-char[
-
-    12
-] SecurityID `" ++ [35777; 21048; 20195; 30721]%N ++ runes_of_ascii "`, 
-char
-Side
-    `" ++ [20080; 21334; 26041; 21521]%N ++ runes_of_ascii "`
-
+3	:
+    Heartbeat  ,4: 
+RiskControlRequest
 ,
-    char OrderType
-`" ++ [35746; 21333; 31867; 22411]%N ++ runes_of_ascii "` 
+	5
+
+    :RiskControlResponse
+,
+
+    }
+    ,
+@calculatedFrom( ""CRC32""
+
+    )
+    u32
+Ckecksum
+	`" ++ [26657; 39564; 21644]%N ++ runes_of_ascii "`  ,
+}
+
+    packet
+	Logon
+    {
+
+    @leftPad(
+	'0'
+) 
+char[ 
+10
+
+    ]
+UserName `" ++ [29992; 25143; 21517]%N ++ runes_of_ascii "` ,string 
+Password
+`" ++ [23494; 30721]%N ++ runes_of_ascii "`
+    ,
+
+uint64
+    ClientId`" ++ [23458; 25143; 31471]%N ++ runes_of_ascii "ID`
+, 
+u16 
+HeartbeatInterval
+
+`" ++ [24515; 36339; 38388; 38548]%N ++ runes_of_ascii "`	, } 
+packet Logout	{ @rightPad  (
+'0' 
+)
+char[	10] UserName `" ++ [29992; 25143; 21517]%N ++ runes_of_ascii "` ,	uint64
+
+ClientId
+
+`" ++ [23458; 25143; 31471]%N ++ runes_of_ascii "ID` , }packet  Heartbeat {
+}
+    packet  RiskControlRequest
+{
+	string
+
+    UniqueOrderId `" ++ [21807; 19968; 35746; 21333; 21495]%N ++ runes_of_ascii "`,char[ 
+16
+	]
+	ClOrdID
+	`" ++ [23458; 25143; 35746; 21333; 21495]%N ++ runes_of_ascii "` 
+,	char[
+
+    3
+    ]
+
+MarketID
+	`" ++ [24066; 22330]%N ++ runes_of_ascii "id`
+,
+char[12]
+
+    SecurityID
+    `" ++ [35777; 21048; 20195; 30721]%N ++ runes_of_ascii "`, char
+    Side
+    `" ++ [20080; 21334; 26041; 21521]%N ++ runes_of_ascii "` ,
+
+char
+OrderType
+	`" ++ [35746; 21333; 31867; 22411]%N ++ runes_of_ascii "`  ,  u64
+
+    Price 
+`" ++ [20215; 26684]%N ++ runes_of_ascii "`
+
+    ,u32 Qty
+	`" ++ [25968; 37327]%N ++ runes_of_ascii "`,
+repeat 
+string
+ExtraInfo 
+`" ++ [38468; 21152; 20449; 24687]%N ++ runes_of_ascii "`  ,  repeat
+    SubOrder  {	char[ 16
+
+    ] 
+ClOrdID	`" ++ [23376; 35746; 21333; 21495]%N ++ runes_of_ascii "` 
 , 
 u64
-
-Price	`" ++ [20215; 26684]%N ++ runes_of_ascii "` , 
-u32 Qty	`" ++ [25968; 37327]%N ++ runes_of_ascii "` ,  repeat
-string 
-ExtraInfo
-`" ++ [38468; 21152; 20449; 24687]%N ++ runes_of_ascii "`	,repeat SubOrder { char[	16
-
-]
-
-ClOrdID `" ++ [23376; 35746; 21333; 21495]%N ++ runes_of_ascii "` ,u64  Price `" ++ [23376; 35746; 21333; 20215; 26684]%N ++ runes_of_ascii "`
-,
-    u32  Qty
+Price
+`" ++ [23376; 35746; 21333; 20215; 26684]%N ++ runes_of_ascii "`, u32
+Qty 
 `" ++ [23376; 35746; 21333; 25968; 37327]%N ++ runes_of_ascii "`
-	,
+	, }
 
-    } ,}packet 
-RiskControlResponse
-	{
-	string
-	UniqueOrderId 
-`" ++ [21807; 19968; 35746; 21333; 21495]%N ++ runes_of_ascii "`	,
+    ,
 
-    i32
-    Status
+}
+packet
 
-`" ++ [29366; 24577]%N ++ runes_of_ascii "`
-	,
+    RiskControlResponse
+{
+
+    string
+
+    UniqueOrderId `" ++ [21807; 19968; 35746; 21333; 21495]%N ++ runes_of_ascii "`  , 
+i32 Status `" ++ [29366; 24577]%N ++ runes_of_ascii "`, string Msg
+`" ++ [32467; 26524; 20449; 24687]%N ++ runes_of_ascii "`
+,
+
+repeat Detail
+    , }
+
+packet
+	Detail {
+
 string
-Msg`" ++ [32467; 26524; 20449; 24687]%N ++ runes_of_ascii "`,
 
-    repeat
-    Detail, }
-    packet
-    Detail {
-
-string
 RuleName
-	`" ++ [35268; 21017; 21517; 31216]%N ++ runes_of_ascii "`  ,  u16
 
-    Code 
-`" ++ [21407; 22240; 20195; 30721]%N ++ runes_of_ascii "`
+`" ++ [35268; 21017; 21517; 31216]%N ++ runes_of_ascii "`
+    ,  u16 Code `" ++ [21407; 22240; 20195; 30721]%N ++ runes_of_ascii "`
 
-    ,}")).
-Eval vm_compute in ("<<<M96>>>" ++ check (runes_of_ascii "packet  int//x
-{
-// " ++ [128512]%N ++ runes_of_ascii " emoji
-//	t
-} packet Z9_ {
-    @tag(  1
-) @tag(00 ) zchar[ 0 ] trueish `// not a comment`
-, Header @lengthOf(
-repeatCount ) // `tick` ""quote"" 'q'
-,charz float`crlf
-line` , match
-lengthOf as	u
-    // c
-    { // `tick` ""quote"" 'q'
-65535  :
-    msg_type
-,""1""
-:
-    // " ++ [27880; 37322]%N ++ runes_of_ascii "
-    x
-    ,
-""a\""b"" : packetx , 10:
-msg_type """ ++ [128512]%N ++ runes_of_ascii """ :
-calculatedFrom [
-7 ,0	]
-    // c
-    : // " ++ [128512]%N ++ runes_of_ascii " emoji
-u128 , }, string i8i8`{ , }` , } packet// @lengthOf(
-a1{ } root packet roots {
-    @lengthOf(
-    // " ++ [128512]%N ++ runes_of_ascii " emoji
-    u )
-f64 Logon,@lengthOf(
-_x	) As
-    @calculatedFrom(""\n"" ) , @leftPad
-// packet A { u8 x, }
-// " ++ [27880; 37322]%N ++ runes_of_ascii "
-(  )repeatCount
-@calculatedFrom( ""{,}""
-)
-`tab	here`
-    // trailing space 
-    , @tag(
-    //x
-    42)char[
-1
-    ]T
-    `a\`
-,int64
-_x// packet A { u8 x, }
-, zchar[	4294967296
-    ]
-i64_ @lengthOf(  tag
-    //	t
-    )
-    `
-`
-    , @calculatedFrom(""a\""b""
-    //x
-    ) u8 len`it's` , @leftPad
-(
-) metadata@lengthOf(tag
-    ) `{ , }` ,@leftPad// packet A { u8 x, }
-( ' '
-) MetaDataX  {
-    repeat char[]	rootA
-    ,
-    // c
-    } ,i8 body ,}
-")).
-Eval vm_compute in ("<<<M1550>>>" ++ check (runes_of_ascii "  options 
-{FixedStringPadFromLeft= true  ;
-FixedStringPadChar =
+,} ")).
+Eval vm_compute in ("<<<M1602>>>" ++ check (runes_of_ascii "packet
 
-'0' ;
-	}packet
+    i8i8
 
-Leg{ InPrice0
+    {
 
-{ repeat string
-	clOrdID
-, 
-int16  msgKind , 
-zchar[
-
-    5
-    ] Px,
-    }
-,
-
-i16 f1,	repeat f64
-
-    Side2	,  string
-Acct ,  }
-packet Cancel
-    { zchar[
-    4
-    ] clOrdID ,	string  seqNo 
-,
-    Leg,
-
-@leftPad
-(
-'0'
-    )char[ 
-11
-]OrderId  ,	}packet 
-Quote 
-{  repeat char[4 ]sym
-,
-
-    f64 
-OrderId ,
-	repeat
-	Leg,
-	repeat i64 f1	, int16
-
-Note
-
-    ,zchar[	3 
-]count 
-,	}
-root
-
-    packet	Ack	{ @leftPad (
-	' '
-	) char[ 10
-
-    ]
-
-sym ,InPx60{ Cancel
-,
-	repeat char[
-    1 ]
-
-    f1
-, string
-
-Tail
-	, repeat 
-InNote55
-	{
-
-int8
-
-count
-
-    ,f64
-
-    f1,	repeat
-Cancel
-, }
-,	char[]
-tag7  ,
-	repeat
-
-string msgKind
-	,}
-,u8
-
-lastPx	, match
-
-lastPx
-as
-
-Body { 
-152  :
-	Quote
-
-    ,173
-:	Cancel  ,
-4	:  Leg
-	,
-
-    }  , u16 Ref @calculatedFrom(
-""CR\
-C32"")
-
-    ,}
-")).
-Eval vm_compute in ("<<<M135>>>" ++ check (runes_of_ascii "
-packet crc
-    {@tag(	0)  @calculatedFrom(
-    ""{,}""	) @rightPad ( ' ')	repeat uint8 lengthOf // a // b
-,
-    char[	42 ] float ,
-    repeat a1 // packet A { u8 x, }
-{ match
-x_y_z as charz
-    { [
-00
-, 4294967296,
-//x
-// a // b
-""it's"",""" ++ [28040; 24687]%N ++ runes_of_ascii """ ] ://x
-zchar,	[
-    ""packet"" ,// c
-""x y"",
-""it's"" ,""abc"" ,
-""it's""
-    ] :string_ , 0 : Z9_
-}
-    // `tick` ""quote"" 'q'
-    , // `tick` ""quote"" 'q'
-} ,match u8x
-as//x
-pack {[ 0123456789
-, ""x y""
-] : // c
-trueish /// triple
-, }	,
-    @calculatedFrom( ""a\""b""
-    // c
-    ) repeat string_ `a\`,
-packetx@calculatedFrom(
-""`tick`"" ) , int64 chars `say ""hi""` , @calculatedFrom(
-""a	b"" )@leftPad (  '\x00'
-) @lengthOf(
-    repeatCount)u64
-    falsey@calculatedFrom( ""\" ++ [233]%N ++ runes_of_ascii """
-    )
-,
-repeat Header { repeat
-    metadata , char[] chars`" ++ [28040; 24687; 31867; 22411]%N ++ runes_of_ascii "` , zchar[ 10] x_y_z `a\` ,	},
-// trailing space 
-// c
-}
-")).
-Eval vm_compute in ("<<<M1117>>>" ++ check (runes_of_ascii "// top
-MetaData
-    // c0
-Packet
-    // c1
-{
-    // c2
-}
-    // c3
-packet
-    // c4
-charz
-    // c5
-{
-    // c6
-Foo
-    // c7
-asx
-    // c8
-`it's`
-    // c9
-,
-    // c10
-@lengthOf(
-    // c11
-T
-    // c12
-)
-    // c13
-@calculatedFrom(
-    // c14
-""""
-    // c15
-)
-    // c16
-@calculatedFrom(
-    // c17
-""x y""
-    // c18
-)
-    // c19
-zchar[
-    // c20
-007
-    // c21
-]
-    // c22
-repeatCount
-    // c23
-@lengthOf(
-    // c24
-int
-    // c25
-)
-    // c26
-`a\`
-    // c27
-,
-    // c28
-i8
-    // c29
-string_
-    // c30
-,
-    // c31
-repeat
-    // c32
-options1
-    // c33
-Pad
-    // c34
-,
-    // c35
-}
-    // c36
-root
-    // c37
-packet
-    // c38
-Packet
-    // c39
-{
-    // c40
-int8
-    // c41
-float
-    // c42
-`doc`
-    // c43
-,
-    // c44
-}
-    // c45
-")).
-Eval vm_compute in ("<<<M1120>>>" ++ check (runes_of_ascii "// top
-root
-    // c0
-packet
-    // c1
-_x
-    // c2
-{
-    // c3
-match
-    // c4
-Foo
-    // c5
-as
-    // c6
-Z9_
-    // c7
-{
-    // c8
-""a	b""
-    // c9
-:
-    // c10
-Pad
-    // c11
-,
-    // c12
-}
-    // c13
-,
-    // c14
-repeat
-    // c15
-x
-    // c16
-`line1
-line2`
-    // c17
-,
-    // c18
-@rightPad
-    // c19
-(
-    // c20
-' '
-    // c21
-)
-    // c22
-@calculatedFrom(
-    // c23
-""a\\""
-    // c24
-)
-    // c25
-metadata
-    // c26
-MetaDataX
-    // c27
-,
-    // c28
 @tag(
-    // c29
-0
-    // c30
-)
-    // c31
-Logon
-    // c32
-int
-    // c33
-``
-    // c34
-,
-    // c35
-}
-    // c36
-options
-    // c37
-{
-    // c38
-T
-    // c39
-=
-    // c40
-'\x00'
-    // c41
-}
-    // c42
-")).
-Eval vm_compute in ("<<<M131>>>" ++ check (runes_of_ascii "
-root
-packet
-u8x{ char
-// trailing space 
-// @lengthOf(
-i64_ ,repeat char[1
-] Z9_ , @tag(
-//x
-// " ++ [128512]%N ++ runes_of_ascii " emoji
-42
-) repeat Logon MetaDataX , @leftPad
-    //
-    ( )
-    Foo
-@lengthOf( As
-    ) // " ++ [128512]%N ++ runes_of_ascii " emoji
-, match u128	as //	t
-calculatedFrom {// " ++ [128512]%N ++ runes_of_ascii " emoji
-4294967296:
-BodyLength,
-    3:  A , //
-[ 4294967296//
-, ""packet""] : o	, 65535 : roots } ,
-repeat Pad { uint64 x @calculatedFrom( """ ++ [128512]%N ++ runes_of_ascii """
-    ) , a1 @lengthOf( As)
-    `line1
-line2` ,	repeat string_{repeat uint32 _x	, f32
-MetaDataX `it's`
-    //	t
-    , u64 As  @lengthOf( crc ) , } ,
-    roots , }, zchar[  00] // @lengthOf(
-u128, }
-//	t
-")).
-Eval vm_compute in ("<<<M1300>>>" ++ check (runes_of_ascii "// top
-packet // c0
-A { u8
-    // c3
-a , // c5a
-  // c5b
-} // c6
-packet
-    // c7
-B { // c9a
-  // c9b
-u16 // c10a
-  // c10b
-b // c11
-, // c12
-}
-    // c13
-root packet // c15a
-  // c15b
-P { // c17
-u8 // c18
-K // c19
-, // c20
-match // c21
-K // c22
-as // c23
-M // c24a
-  // c24b
-{
-    // c25
-[ // c26
-1
-    // c27
-,
-    // c28
-2 // c29a
-  // c29b
-] // c30a
-  // c30b
-: // c31a
-  // c31b
-A // c32a
-  // c32b
-, 3
-    // c34
-: // c35
-B // c36a
-  // c36b
-, 7 // c38
-: // c39a
-  // c39b
-A // c40
-, // c41
-} ,
-    // c43
-}
-    // c44
-")).
-Eval vm_compute in ("<<<M1397>>>" ++ check (runes_of_ascii "
-root
+0  )
 
-packet
-    string_ { 
-      //	t
-	//x
+int32 
+leftPad
 
-  i16 
-o 	 /// triple
-      ,
-@tag( 4294967296	) 
-repeat	char
+`it's`,	repeat
+char[] Header
 
-o,
-	Foo
-	{
-match MetaDataX 	 // trailing space 
-    as
+`crlf
+line` ,@calculatedFrom(
+""\" ++ [233]%N ++ runes_of_ascii """
+	)  /// triple
+  repeat
+    uint8 float  , 
+@rightPad
 
-leftPad 
-{
-
-    0123456789
-
-:
-    calculatedFrom ,	[
-    0 ]:	u128
-    } ,
-	repeat u 
-    // `tick` ""quote"" 'q'
-	  // @lengthOf(
-
-{
-	zchar[
-
-65535
-    ]body
-@lengthOf( float
-) 
-,
-    o
-
-,
-    asx@calculatedFrom(
-
-""{,}"")
-
-    `it's` 	 // `tick` ""quote"" 'q'
-	, } // `tick` ""quote"" 'q'
-,
-
-}	,
-}")).
-Eval vm_compute in ("<<<M1568>>>" ++ check (runes_of_ascii "packet metadata {
-    @rightPad()
-    zchar[0123456789] i64_ @calculatedFrom(""\n""),
-    @leftPad(' ')
-    zchar[255] MetaDataX `{ , }`,
-    @rightPad(' ')
-    @calculatedFrom(""abc"")
-    @lengthOf(matchKey)
-    repeat char[42] packetx `" ++ [233]%N ++ runes_of_ascii "`,
-    trueish @calculatedFrom(""packet"") `a\`,
-    matchKey int `" ++ [28040; 24687; 31867; 22411]%N ++ runes_of_ascii "`,
-    @tag(0)
-    len {
-        char[65535] Header,
-    },
-    @lengthOf(f32a)
-    zchar[10] trueish `crlf
-    line`,
-}")).
-Eval vm_compute in ("<<<M220>>>" ++ check (runes_of_ascii "root
-    packet string_{
-//	t
-//x
-i16 o /// triple
-,
-    @tag( 4294967296
-)
-repeat char o ,Foo {match MetaDataX // trailing space 
-as leftPad
-    { 0123456789 : calculatedFrom ,
-[ 0 ]
-: u128}
-, repeat
-u
-// `tick` ""quote"" 'q'
-// @lengthOf(
-{
-    zchar[65535]body@lengthOf( float  )
-,o , asx @calculatedFrom( ""{,}"" ) `it's` // `tick` ""quote"" 'q'
-,}// `tick` ""quote"" 'q'
-,
-} ,  }
-")).
-Eval vm_compute in ("<<<M1826>>>" ++ check (runes_of_ascii "MetaData Packet {
-}
-
-packet charz {
-    // c6a
-    // c6b
-    Foo asx `it's`,
-    @lengthOf(T)
-    @calculatedFrom("""")
-    @calculatedFrom(""x y"")
-    // c19a
-    // c19b
-    zchar[007] repeatCount @lengthOf(int) `a\`,// c28a
-    // c28b
-    i8 string_,// c31
-    repeat options1 Pad,
-}// c36a
-
-// c36b
-root packet Packet {
-    int8 float `doc`,// c44
-}")).
-Eval vm_compute in ("<<<M240>>>" ++ check (runes_of_ascii "
-packet BodyLength { repeatCount // packet A { u8 x, }
-`// not a comment`
-,
-@lengthOf( lengthOf	)  @tag( 65535
-    )@rightPad (
-// @lengthOf(
-//	t
-'0' )/// triple
-u8 Logon , } packet chars { o msg_type , @tag( 10)zchar[ 65535
-] f32a
-,repeat char[]
-i64_
-`
-` ,} root packet f32a { @tag( 255 )repeat u8 stringy, }
-")).
-Eval vm_compute in ("<<<M35>>>" ++ check (runes_of_ascii "  packet Header
-{ @calculatedFrom( // a // b
-""a	b"" )
-char[
-    255] falsey `tab	here`,int8
-    // " ++ [27880; 37322]%N ++ runes_of_ascii "
-    u
-`doc` , float32 lengthOf
-    @calculatedFrom(
-""a	b""  )
+    ('\x00' )char[]
+    zchar  @lengthOf(
     // a // b
-    , @rightPad (
-' '  ) @tag( 3
-) float64 asx
+      //x
+leftPad  ) `
+`
+,
+
+Z9_
+
+, @lengthOf( x
+
+) match  As
+
+    as tag {
+
+""a	b"" 
+: string_ 
+[
+
+    10
+,  7 , 
+""1"" 
+, 
+255	,
+    3
+    ,	42
+,
+        //
+	0123456789
+,	""" ++ [128512]%N ++ runes_of_ascii """
+] :  x_y_z ,
+
+    ""CRC32""
+    :  Z9_
     ,
-int8 metadata @lengthOf(zchar )// a // b
-,Pad f32a , }")).
-Eval vm_compute in ("<<<M1274>>>" ++ check (runes_of_ascii "// top
-options
-    // c0
-{ // c1a
-  // c1b
-FixedStringPadFromLeft
+00 
+    // c
+: Logon
+
+,	},
+
+@tag(007
+
+)
+
+    o	{
+    char
+Packet
+    @lengthOf(
+//	t
+  repeatCount
+    )
+,
+
+    } 
+, @lengthOf(  
+      // " ++ [27880; 37322]%N ++ runes_of_ascii "
+    /// triple
+  pack
+	) 
+float64
+rootA`two words`
+
+,
+
+repeat
+
+    char[] BodyLength 
+,}  packet
+	Z9_{
+    match 
+    // packet A { u8 x, }
+  As 
+as a1  {	//
+
+  0:  trueish// `tick` ""quote"" 'q'
+
+,}
+
+    ,
+    /// triple
+      // " ++ [27880; 37322]%N ++ runes_of_ascii "
+    }
+root
+
+packet u8x  {
+        /// triple
+	  // " ++ [128512]%N ++ runes_of_ascii " emoji
+	repeat
+	string	Logon 
+`tab	here`  ,// " ++ [128512]%N ++ runes_of_ascii " emoji
+	} options {
+_x
+    = 
+""packet""
+
+;  f32a=
+    007 
+}packet
+
+i8i8 
+{
+@calculatedFrom( ""CRC32""
+
+    )A
+	@lengthOf(
+a1)
+	, } ")).
+Eval vm_compute in ("<<<M1332>>>" ++ check (runes_of_ascii "options {
+    FixedStringPadFromLeft = true;
+    FixedStringPadChar = '0';
+}
+packet Leg {
+    InPrice0 {
+        repeat string clOrdID,
+        int16 msgKind,
+        zchar[5] Px,
+    },
+    i16 f1,
+    repeat f64 Side2,
+    string Acct,
+}
+packet Cancel {
+    zchar[4] clOrdID,
+    string seqNo,
+    Leg,
+    @leftPad('0') char[11] OrderId,
+}
+packet Quote {
+    repeat char[4] sym,
+    f64 OrderId,
+    repeat Leg,
+    repeat i64 f1,
+    int16 Note,
+    zchar[3] count,
+}
+root packet Ack {
+    @leftPad(' ') char[10] sym,
+    InPx60 {
+        Cancel,
+        repeat char[1] f1,
+        string Tail,
+        repeat InNote55 {
+            int8 count,
+            f64 f1,
+            repeat Cancel,
+        },
+        char[] tag7,
+        repeat string msgKind,
+    },
+    u8 lastPx,
+    match lastPx as Body {
+        152 : Quote,
+        173 : Cancel,
+        4 : Leg,
+    },
+    u16 Ref @calculatedFrom(""CR\
+C32""),
+}
+")).
+Eval vm_compute in ("<<<M237>>>" ++ check (runes_of_ascii "root
+    packet
+    asx { // `tick` ""quote"" 'q'
+f32a	,
+@calculatedFrom(
+""abc"") zchar[ 65535 ]	metadata `
+` , @calculatedFrom(// " ++ [128512]%N ++ runes_of_ascii " emoji
+""CRC32"" // `tick` ""quote"" 'q'
+) Header `doc`
+    // @lengthOf(
+    , match
+f32a as
+msg_type
+// @lengthOf(
+//x
+{ [ ""\n"" ] /// triple
+:
+charz// @lengthOf(
+0123456789 :
+pack
+    // `tick` ""quote"" 'q'
+    ,//x
+[ ""packet"" , """",
+    // @lengthOf(
+    ""`tick`"" ,
+    ""CRC32"" , ""\n"" ,
+// `tick` ""quote"" 'q'
+// trailing space 
+""it's""//	t
+,
+""it's"", //
+4294967296 ]
+:
+charz
+42
+    : leftPad , [
+255 ,	7 , ""packet"" , // trailing space 
+""{,}""
+    , ""\" ++ [233]%N ++ runes_of_ascii """ ,""1""
+    ,	""1""  ] : msg_type
+,
+    [ """ ++ [128512]%N ++ runes_of_ascii """
+    ]:  i64_ } ,  }packet body { } root packet i64_
+    { uint16  Header @calculatedFrom(
+""" ++ [233]%N ++ runes_of_ascii "t" ++ [233]%N ++ runes_of_ascii """ )
+    ``
+    ,float64 string_@calculatedFrom( // a // b
+""`tick`"") , repeat zchar[ // @lengthOf(
+1] packetx`it's` ,
+} //	t")).
+Eval vm_compute in ("<<<M1490>>>" ++ check (runes_of_ascii "//x
+  	packet
+
+x {
+
+    @lengthOf(	string_
+	)
+
+    // `tick` ""quote"" 'q'
+    // trailing space 
+msg_type{ int  // a // b
+  @lengthOf( chars )
+        //x
+  // " ++ [27880; 37322]%N ++ runes_of_ascii "
+    `" ++ [28040; 24687; 31867; 22411]%N ++ runes_of_ascii "`
+    ,int
+	`a\` 
+, }
+, uint32
+	chars
+@calculatedFrom( ""`tick`"" )
+
+    `
+` ,
+@lengthOf( packetx 	 // trailing space 
+)
+	match
+
+    metadata
+as
+x_y_z
+    {
+65535	:	x ,
+007
+    // `tick` ""quote"" 'q'
+		// " ++ [128512]%N ++ runes_of_ascii " emoji
+    : u
+[ 7 ,
+""// no comment"",""" ++ [28040; 24687]%N ++ runes_of_ascii """	] 
+:
+x ""a\\""
+	:
+MetaDataX 
+, 0123456789
+    :lengthOf
+10
+    :  
+  //
+    // `tick` ""quote"" 'q'
+float  } ,  u16
+
+    Logon
+
+    @calculatedFrom(
+	""x y""
+	)
+`tab	here` 
+    //	t
+    //
+      ,@lengthOf( 
+Foo
+) zchar	/// triple
+  , }	packet  tag{  }
+root	packet
+    x_y_z
+    { } MetaData
+
+    int
+
+{ string
+
+A 
+`" ++ [233]%N ++ runes_of_ascii "` ,
+}
+")).
+Eval vm_compute in ("<<<M1354>>>" ++ check (runes_of_ascii "options {
+    StringPrefixLenType = u8;
+    ArrayPrefixLenType = u32;
+    FixedStringPadFromLeft = true;
+    FixedStringPadChar = ' ';
+}
+packet Leg {
+}
+packet Heartbeat {
+    zchar[6] msgKind,
+    @rightPad('0') char[3] Qty,
+    zchar[9] Side2,
+    i8 Acct,
+}
+packet Logout {
+    int8 x,
+}
+packet Order {
+    char[] Acct,
+    zchar[8] count,
+    u32 OrderId,
+    uint8 lastPx,
+    u16 clOrdID,
+    zchar[7] Note,
+}
+root packet Reject {
+    @leftPad(' ') char[8] Side2,
+    i8 clOrdID,
+    repeat f32 x,
+    u32 lastPx,
+    match lastPx as Body {
+        [30, 147] : Heartbeat,
+        134 : Leg,
+        183 : Logout,
+        40 : Order,
+    },
+    u16 Ref @calculatedFrom(""CR\
+C32""),
+}
+")).
+Eval vm_compute in ("<<<M1853>>>" ++ check (runes_of_ascii "  // top
+  packet  // c0
+	A { u8 
+    // c3
+
+  a
+,	// c5a
+// c5b
+  } // c6
+  packet 
+// c7
+		B
+
+{// c9a
+// c9b
+    	u16// c10a
+	// c10b
+b	// c11
+    	, // c12
+  }
+	    // c13
+	  root
+packet // c15a
+    // c15b
+
+	P 
+{ 	 // c17
+
+  u8	// c18
+    K	// c19
+
+	,// c20
+	match	// c21
+    K	// c22
+		as// c23
+  	M 	 // c24a
+// c24b
+{ 
+	// c25
+
+  [  // c26
+  1
+	    // c27
+    , 
+
+// c28
+  2	// c29a
+    // c29b
+]	// c30a
+	  // c30b
+: 	 // c31a
+    	// c31b
+
+A // c32a
+	// c32b
+
+,
+	3
+    // c34
+:	// c35
+B 	 // c36a
+  // c36b
+    	, 7	// c38
+    : // c39a
+// c39b
+  A// c40
+    , 	 // c41
+} , 
+// c43
+} 
+  // c44
+ 
+")).
+Eval vm_compute in ("<<<M1336>>>" ++ check (runes_of_ascii "options {
+    LittleEndian = false;
+    ArrayPrefixLenType = u8;
+    FixedStringPadFromLeft = true;
+    FixedStringPadChar = '0';
+}
+packet Heartbeat {
+    string lastPx,
+    uint8 Qty,
+    i64 Acct,
+    char[4] Ref,
+}
+packet Fill {
+    uint8 Ref,
+    Heartbeat,
+    f32 OrderId,
+    repeat f32 x,
+}
+root packet Order {
+    zchar[2] OrderId,
+    zchar[2] Acct,
+    zchar[1] Note,
+    zchar[9] Qty,
+    string price,
+    string tag7,
+    u32 x,
+    match x as Body {
+        123 : Fill,
+        112 : Heartbeat,
+    },
+    u32 seqNo @calculatedFrom(""CR\
+C32""),
+}
+")).
+Eval vm_compute in ("<<<M1743>>>" ++ check (runes_of_ascii "// top
+packet A {
+    // c2
+    u8 a,// c5
+}// c6a
+
+// c6b
+packet B {
+    // c9
+    u16 b,
+}// c13a
+
+// c13b
+packet C {
+    // c16
+    u32 c,// c19a
+}
+
+// c20
+root packet M {
+    u16 Kc,
+    // c27
+    u16 Kb,// c30
+    u16 Ka,
+    match Kc as X {
+        // c38
+        9 : A,
+        10 : B,
+    },
+    match Kb as Y {
+        2 : C,
+        // c57
+        1 : A,
+    },// c63a
+    // c63b
+    match Ka as Z {
+        // c68
+        1 : B,
+    },// c74
+    A,// c76
+    B,
+    // c78
+    C,// c80
+}")).
+Eval vm_compute in ("<<<M140>>>" ++ check (runes_of_ascii "
+root packet int{	repeat
+    float tag , char[] roots
+, @lengthOf( repeatCount ) @lengthOf( // packet A { u8 x, }
+rootA)
+uint16 o
+    `tab	here` ,
+    //	t
+    i16 Pad `line1
+line2` , Pad{match Pad as
+    _x
+{ [00]
+:
+    Z9_
+, } ,} , repeat zchar calculatedFrom`a\` ,	f64 // @lengthOf(
+charz
+    //x
+    ,Pad
+    Foo,@calculatedFrom(
+    """ ++ [28040; 24687]%N ++ runes_of_ascii """ )
+    charz
+    @lengthOf( charz ), @lengthOf(
+    rootA ) match o
+as body {00 :
+x_y_z// " ++ [128512]%N ++ runes_of_ascii " emoji
+} ,}
+")).
+Eval vm_compute in ("<<<M1236>>>" ++ check (runes_of_ascii "// top
+options // c0a
+  // c0b
+{ f32a
     // c2
 = // c3
-true
-    // c4
-; // c5a
-  // c5b
+0 } // c5
+packet trueish // c7a
+  // c7b
+{ // c8
 }
-    // c6
-root // c7
-packet P {
-    // c10
-char[ // c11a
-  // c11b
-4 // c12a
-  // c12b
-] z // c14
-,
-    // c15
-} // c16a
-  // c16b
+    // c9
+MetaData _x // c11
+{ char[ // c13a
+  // c13b
+0123456789 // c14
+] // c15a
+  // c15b
+zchar
+    // c16
+, // c17a
+  // c17b
+string // c18
+crc ,
+    // c20
+char[
+    // c21
+1 ] // c23a
+  // c23b
+options1
+    // c24
+, uint8 // c26a
+  // c26b
+repeatCount
+    // c27
+, // c28
+} // c29
 ")).
-Eval vm_compute in ("<<<M1373>>>" ++ check (runes_of_ascii "packet Sub {
-    u8 a,
-    @calculatedFrom(""CRC16"") i32 SubSum,
+Eval vm_compute in ("<<<M15>>>" ++ check (runes_of_ascii "MetaData // c
+u128{
+    }MetaData
+    a1 {
+}
+    root packet	o {	char[
+10 ]  stringy @lengthOf( Z9_) ,
+match
+x_y_z as stringy
+{	3
+: float ,
+    } , @leftPad //	t
+( ' '
+    ) u128 {	repeat i32 msg_type `crlf
+line` , x	, repeat char[	65535
+] T, match
+    A as
+i8i8 { """ ++ [128512]%N ++ runes_of_ascii """ : Logon
+, } //
+, } ,
+@rightPad (  '\x00') repeat x_y_z options1 `two words` , }
+")).
+Eval vm_compute in ("<<<M1810>>>" ++ check (runes_of_ascii "// top
+options {
+    // c1a
+    // c1b
+    zchar = true;
+    Pad = char[00]
+    // c10
+    a1 = uint32// c13a
+    // c13b
+    BodyLength = true;
+}
+
+root packet T {
+    @lengthOf(repeatCount)
+    @tag(1)
+    @calculatedFrom(""a	b"")
+    // c31a
+    // c31b
+    string stringy @calculatedFrom(""\n"") `u8 x,`,// c38
+}// c39")).
+Eval vm_compute in ("<<<M1462>>>" ++ check (runes_of_ascii "
+
+  options {
+
+LittleEndian  = true ;  }
+packet Logon
+{
+u8	x	, } 
+packet 
+Logout
+{ 
+u16	reason	,}  root  packet
+
+Frame {u16
+	Kind
+,u16
+    Kind2 ,
+    match
+Kind 
+as Body {1
+: Logon ,	[2  ,
+	3,4]
+:	Logout ,
+
+100  : Logon	,
+    }  ,
+match Kind2 as
+
+Trailer
+	{
+
+0 :
+	Logout	,
+
+} 
+,}
+
+")).
+Eval vm_compute in ("<<<M1370>>>" ++ check (runes_of_ascii "options {
+    LittleEndian = true;
+}
+packet Logon {
+    u8 x,
+    string user,
+}
+packet Logout {
+    u16 reason,
+}
+packet Empty {
 }
 root packet Frame {
     u16 MsgType,
-    u16 BodyLen @lengthOf(Body),
-    Sub Body,
-    string note,
-    @calculatedFrom(""CRC16"") i32 Checksum,
-    u8 tail,
+    u8 BodyLen @lengthOf(Body),
+    u8 flags,
+    Logon Body,
+    u32 trailer,
 }
 ")).
-Eval vm_compute in ("<<<M1423>>>" ++ check (runes_of_ascii "packet A {
-    Inner {
-        match k as n {
-            [
-                1, 22, 007, 4, 5,
-                66, 7, 8, 9, 10,
-                11, 12
-            ] : B,
-        },
-    },
-}")).
-Eval vm_compute in ("<<<M1800>>>" ++ check (runes_of_ascii "  MetaData
-    leftPad 
-{
-    chars MetaDataX  ,}
-packet
-
-    repeatCount
-{char[ 
-255
-	]
-	uint8x
-`" ++ [233]%N ++ runes_of_ascii "`
-
-    ,  } // c
-MetaData
-    pack
-    {
-As
-
-    Foo , }")).
-Eval vm_compute in ("<<<M501>>>" ++ check (runes_of_ascii "packet uint8x
-{ match pack
-    as msg_type	{
-    0123456789 :	float
-}
-,
-} packet //	t
-a1
-    { } options {packetx
-    = '\x00' '\x00'	; u128= ""a	b""  ; }
+Eval vm_compute in ("<<<M364>>>" ++ check (runes_of_ascii "packet  _x
+{ repeat char[] matchKey// " ++ [128512]%N ++ runes_of_ascii " emoji
+, @leftPad( ) x_y_z/// triple
+T , Pad
+{ zchar[ 1] rootA `tab	here`
+,},Foo
+    @calculatedFrom(
+    """"
+    // trailing space 
+    ),
+}	packet MetaDataX {
+float64 body, }
 ")).
-Eval vm_compute in ("<<<M552>>>" ++ check (runes_of_ascii "packet uint8x
-{ match pack
-    as msg_type	{
-    0123456789 :	float
-}
-,
-} packet //	t
-na" ++ [239]%N ++ runes_of_ascii "ve
-    { } options {packetx
-    = '\x00'	; u128= ""a	b""  ; }
-")).
-Eval vm_compute in ("<<<M1561>>>" ++ check (runes_of_ascii "// top
-MetaData uint8x {
-    char[] f32a `// not a comment`,
-    float32 roots,
-    char[7] u8x,
-    zchar[10] f32a,
-    u64 pack,
-    u16 pack,
-}// c26")).
-Eval vm_compute in ("<<<M457>>>" ++ check (runes_of_ascii "packet uint8x
-{ match pack
-    as msg_type	{
-    0123456789 :	float
-}
-,
-packet } //	t
-a1
-    { } options {packetx
-    = '\x00'	; u128= ""a	b""  ; }
-")).
-Eval vm_compute in ("<<<M505>>>" ++ check (runes_of_ascii "packet uint8x
-{ match pack
-    as msg_type	{
-    0123456789 :	float
-}
-,
-} packet //	t
-a1
-    { } options {packetx
-    = '\x00'	 u128= ""a	b""  ; }
-")).
-Eval vm_compute in ("<<<M703>>>" ++ check (runes_of_ascii "// @lengthOf(
-packet i8i8 { u128 o , }
-options '1'{ MetaDataX = true;
-    BodyLength =""packet"" x_y_z= 007
-crc //x
-= ""abc"" ;
-    msg_type =
-i16 }")).
-Eval vm_compute in ("<<<M718>>>" ++ check (runes_of_ascii "// @lengthOf(
-packet i8i8 { u128 o , }
-options { MetaDataX = true;
-    BodyLength =""packet"" x_y_z= 007
-crc //x
-= ""abc"" ;
-    msg_type as
-i16 }")).
-Eval vm_compute in ("<<<M704>>>" ++ check (runes_of_ascii "// @lengthOf(
-packet i8i8 { u128 o , }
-options { MetaDataX = true;
-    BodyLength =""packet"" x_y_z 007
-crc //x
-= ""abc"" ;
-    msg_type =
-i16 }")).
-Eval vm_compute in ("<<<M686>>>" ++ check (runes_of_ascii "// @lengthOf(
-packet i8i8 { u128 o , }
-options { f64 = true;
-    BodyLength =""packet"" x_y_z= 007
-crc //x
-= ""abc"" ;
-    msg_type =
-i16 }")).
-Eval vm_compute in ("<<<M509>>>" ++ check (runes_of_ascii "packet uint8x
-{ match pack
-    as msg_type	{
-    0123456789 :	float
-}
-,
-} packet //	t
-a1
-    { } options {packetx
-    = '\x00'")).
-Eval vm_compute in ("<<<M1466>>>" ++ check (runes_of_ascii "options
-{ 
-
+Eval vm_compute in ("<<<M38>>>" ++ check (runes_of_ascii "options
+{ falsey
     /// triple
-  	asx// " ++ [27880; 37322]%N ++ runes_of_ascii "
-    = 3 }  MetaData
-T {	f32 	 /// triple
-Pad `u8 x,`
-, }	// `tick` ""quote"" 'q'
+    = false ; falsey=
+    //
+    int16// `tick` ""quote"" 'q'
+;
+    // `tick` ""quote"" 'q'
+    A =
+    // trailing space 
+    u32  ;
+    trueish	= 1  ;
+    }
 ")).
-Eval vm_compute in ("<<<M1161>>>" ++ check (runes_of_ascii "MetaData leftPad { chars MetaDataX , } packet repeatCount { // c
-char[ 255 ] uint8x `" ++ [233]%N ++ runes_of_ascii "` , } MetaData pack { As Foo , }")).
-Eval vm_compute in ("<<<M938>>>" ++ check (runes_of_ascii "packet A {
-    Inner {
-        u8 x `a
-    b
-  c`,
-        Deep {
-            u8 y `a
-    b
-  c`,
-        },
-    },
-}")).
-Eval vm_compute in ("<<<M973>>>" ++ check (runes_of_ascii "packet A {
+Eval vm_compute in ("<<<M1695>>>" ++ check (runes_of_ascii "packet A {
     match k as n {
-        ""\
-"" : B,
-        [""\
-"", 1] : C,
-        [1,2,3,4,5,""\
-""] : D,
+        [
+            007, 66, 9, ""a"", ""bb"",
+            ""d"", ""e"", ""g"", ""h"", ""j"",
+            ""k""
+        ] : B,
+        2 : C,
     },
 }")).
-Eval vm_compute in ("<<<M352>>>" ++ check (runes_of_ascii "packet _x {
-} // trailing space 
-options
-    { repeatCount
-    =42 //x
-;Pad = true;
-x_y_z =
-65535 ;}
-")).
-Eval vm_compute in ("<<<M620>>>" ++ check (runes_of_ascii "
-packet
-    asx {match u128 as lengthOf
-{
-//	t
-// `tick` ""quote"" 'q'
-255 : x ,
-    } @lengthOf(	}")).
-Eval vm_compute in ("<<<M600>>>" ++ check (runes_of_ascii "
-packet
-    asx {match u128 as lengthOf
-{
-//	t
-// `tick` ""quote"" 'q'
-255 packet x ,
-    } ,	}")).
-Eval vm_compute in ("<<<M588>>>" ++ check (runes_of_ascii "
-packet
-    asx {match u128 as lengthOf
-{ {
-//	t
-// `tick` ""quote"" 'q'
-255 : x ,
-    } ,	}")).
-Eval vm_compute in ("<<<M555>>>" ++ check (runes_of_ascii "
-asx
-    packet {match u128 as lengthOf
-{
-//	t
-// `tick` ""quote"" 'q'
-255 : x ,
-    } ,	}")).
-Eval vm_compute in ("<<<M577>>>" ++ check (runes_of_ascii "
-packet
-    asx {match u128  lengthOf
-{
-//	t
-// `tick` ""quote"" 'q'
-255 : x ,
-    } ,	}")).
-Eval vm_compute in ("<<<M1880>>>" ++ check (runes_of_ascii "root
-
-    packet
-    P{	u8 
-s_u8
-    ,	repeat u8 
-r_u8,
-
-    u16
-b_len
-    ,  }
-
-")).
-Eval vm_compute in ("<<<M1292>>>" ++ check (runes_of_ascii "
-
-  root
-    packet
-
-P
-
-    {
-	u8
-	s_u8,  repeat  u8 r_u8  , u16
-    b_len, }
-
-")).
-Eval vm_compute in ("<<<M1630>>>" ++ check (runes_of_ascii "packet
-body
-
-    {	i32 
-f32a
-
-    `{ , }` 
-        // c
-,} 
-options
-{  } ")).
-Eval vm_compute in ("<<<M806>>>" ++ check (runes_of_ascii "packet A {
-  match k as n {
-    [""a"", 22, ""c c"", 4] : B,
-    2 : C
-  },
-}")).
-Eval vm_compute in ("<<<M449>>>" ++ check (runes_of_ascii "packet uint8x
+Eval vm_compute in ("<<<M461>>>" ++ check (runes_of_ascii "packet uint8x
 { match pack
     as msg_type	{
-    0123456789 :	float")).
-Eval vm_compute in ("<<<M781>>>" ++ check (runes_of_ascii "packet A {
+    0123456789 :	float
+}
+,
+} packet packet //	t
+a1
+    { } options {packetx
+    = '\x00'	; u128= ""a	b""  ; }
+")).
+Eval vm_compute in ("<<<M543>>>" ++ check (runes_of_ascii "packet uint8x
+{ mat'1'ch pack
+    as msg_type	{
+    0123456789 :	float
+}
+,
+} packet //	t
+a1
+    { } options {packetx
+    = '\x00'	; u128= ""a	b""  ; }
+")).
+Eval vm_compute in ("<<<M536>>>" ++ check (runes_of_ascii "packet uint8x
+{ match pack
+    as msg_type	{
+    0123456789 :	float
+}
+,
+} packet //	t
+a1
+    { } options {packetx
+    = '\x00'	/; u128= ""a	b""  ; }
+")).
+Eval vm_compute in ("<<<M473>>>" ++ check (runes_of_ascii "packet uint8x
+{ match pack
+    as msg_type	{
+    0123456789 :	float
+}
+,
+} packet //	t
+a1
+    ] } options {packetx
+    = '\x00'	; u128= ""a	b""  ; }
+")).
+Eval vm_compute in ("<<<M530>>>" ++ check (runes_of_ascii "packet uint8x
+{ match pack
+    as msg_type	{
+    0123456789 :	float
+}
+,
+} packet //	t
+a1
+    { } options {packetx
+    = '\x00'	; u128= ""a	b""  ; 
+")).
+Eval vm_compute in ("<<<M440>>>" ++ check (runes_of_ascii "packet uint8x
+{ match pack
+    as msg_type	{
+    0123456789 :	
+}
+,
+} packet //	t
+a1
+    { } options {packetx
+    = '\x00'	; u128= ""a	b""  ; }
+")).
+Eval vm_compute in ("<<<M480>>>" ++ check (runes_of_ascii "packet uint8x
+{ match pack
+    as msg_type	{
+    0123456789 :	float
+}
+,
+} packet //	t
+a1
+    { }  {packetx
+    = '\x00'	; u128= ""a	b""  ; }
+")).
+Eval vm_compute in ("<<<M646>>>" ++ check (runes_of_ascii "// @lengthOf(
+packet i8i8 { u128 o , }
+options { MetaDataX = true;
+    BodyLength =""packet"" x_y_z= 
+crc //x
+= ""abc"" ;
+    msg_type =
+i16 }")).
+Eval vm_compute in ("<<<M649>>>" ++ check (runes_of_ascii "// @lengthOf(
+packet i8i8 { u128 o , }
+options {  = true;
+    BodyLength =""packet"" x_y_z= 007
+crc //x
+= ""abc"" ;
+    msg_type =
+i16 }")).
+Eval vm_compute in ("<<<M1755>>>" ++ check (runes_of_ascii "packet A {
+    u16 len @lengthOf(body) `a
+    
+    b`,
+    u32 crc @calculatedFrom(""CRC32"") `a
+    
+    b`,
+    string body,
+}")).
+Eval vm_compute in ("<<<M1145>>>" ++ check (runes_of_ascii "MetaData leftPad // c
+{ chars MetaDataX , } packet repeatCount { char[ 255 ] uint8x `" ++ [233]%N ++ runes_of_ascii "` , } MetaData pack { As Foo , }")).
+Eval vm_compute in ("<<<M1177>>>" ++ check (runes_of_ascii "MetaData leftPad { chars MetaDataX , } packet repeatCount { char[ 255 ] uint8x `" ++ [233]%N ++ runes_of_ascii "` , } MetaData // c
+pack { As Foo , }")).
+Eval vm_compute in ("<<<M1761>>>" ++ check (runes_of_ascii "packet A {
+    u16 len @lengthOf(body) `x
+    `,
+    u32 crc @calculatedFrom(""CRC32"") `x
+    `,
+    string body,
+}")).
+Eval vm_compute in ("<<<M1885>>>" ++ check (runes_of_ascii "options {
+    falsey = false;
+    falsey = int16;
+    // `tick` ""quote"" 'q'
+    A = u32;
+    trueish = 1;
+}")).
+Eval vm_compute in ("<<<M353>>>" ++ check (runes_of_ascii "options { _x
+    =
+    ""`tick`""	;matchKey=
+""it's""
+;	options1
+    = u16 ; stringy= true
+    // c
+    }
+")).
+Eval vm_compute in ("<<<M885>>>" ++ check (runes_of_ascii "packet A {
   match k as n {
-    [""a"", ""bb""] : B
+    [""a"", 22, ""c c"", 4, ""e"", 66, ""g"", 8, ""i"", 10] : B
     2 : C
   },
 }")).
-Eval vm_compute in ("<<<M261>>>" ++ check (runes_of_ascii "options{ asx= ""1"" //	t
-Pad =  0 stringy =
-    '\x00'
-    ; }")).
-Eval vm_compute in ("<<<M767>>>" ++ check (runes_of_ascii "@rightPad char[] string u16 @tag( @lengthOf( as packet ,")).
-Eval vm_compute in ("<<<M1203>>>" ++ check (runes_of_ascii "packet body { // c
-i32 f32a `{ , }` , } options { }")).
-Eval vm_compute in ("<<<M1100>>>" ++ check (runes_of_ascii "// top
+Eval vm_compute in ("<<<M886>>>" ++ check (runes_of_ascii "packet A {
+  match k as n {
+    [1, 22, ""c c"", 4, 5, ""f"", 7, 8, ""i"", 10] : B,
+    2 : C
+  },
+}")).
+Eval vm_compute in ("<<<M608>>>" ++ check (runes_of_ascii "
+packet
+    asx {match u128 as lengthOf
+{
+//	t
+// `tick` ""quote"" 'q'
+255 : x , ,
+    } ,	}")).
+Eval vm_compute in ("<<<M589>>>" ++ check (runes_of_ascii "
+packet
+    asx {match u128 as lengthOf
+255
+//	t
+// `tick` ""quote"" 'q'
+{ : x ,
+    } ,	}")).
+Eval vm_compute in ("<<<M643>>>" ++ check (runes_of_ascii "
+packet
+    asx {match x" ++ [178]%N ++ runes_of_ascii " as lengthOf
+{
+//	t
+// `tick` ""quote"" 'q'
+255 : x ,
+    } ,	}")).
+Eval vm_compute in ("<<<M861>>>" ++ check (runes_of_ascii "packet A {
+  match k as n {
+    [1, 22, ""c c"", 4, 5, ""f"", 7, 8] : B
+    2 : C
+  },
+}")).
+Eval vm_compute in ("<<<M1790>>>" ++ check (runes_of_ascii "packet A {
+    match k as n {
+        [1, 22, ""c c""] : B,
+        2 : C,
+    },
+}")).
+Eval vm_compute in ("<<<M817>>>" ++ check (runes_of_ascii "packet A {
+  match k as n {
+    [1, ""bb"", 007, ""d"", 5] : B,
+    2 : C
+  },
+}")).
+Eval vm_compute in ("<<<M1623>>>" ++ check (runes_of_ascii "packet body 
+{ 
+    // c
+      i32
+f32a  `{ , }` 
+,
+	}
+
+options
+    {}
+
+")).
+Eval vm_compute in ("<<<M1630>>>" ++ check (runes_of_ascii "packet A
+{
+
+match
+
+    k as n 
+{
+[
+
+    1 
+]	:	B
+    2:
+
+C}
+, }")).
+Eval vm_compute in ("<<<M838>>>" ++ check (runes_of_ascii "packet A { Inner { match k as n { [1,22,007,4,5,66] : B, }, }, }")).
+Eval vm_compute in ("<<<M948>>>" ++ check (runes_of_ascii "packet A {
+    B b `x
+`,
+    B `x
+`,
+    repeat B bs `x
+`,
+}")).
+Eval vm_compute in ("<<<M148>>>" ++ check (runes_of_ascii "options
+{
+    a1	=""packet""// a // b
+; } // @lengthOf(")).
+Eval vm_compute in ("<<<M1211>>>" ++ check (runes_of_ascii "packet body { i32 f32a `{ , }` , // c
+} options { }")).
+Eval vm_compute in ("<<<M1125>>>" ++ check (runes_of_ascii "// top
 MetaData // c0
-tag // c1
+u // c1
 { // c2
 } // c3
 ")).
-Eval vm_compute in ("<<<M1524>>>" ++ check (runes_of_ascii "MetaData o {
-}
-
-MetaData T {
-}
-
-options {
-}")).
-Eval vm_compute in ("<<<M1075>>>" ++ check (runes_of_ascii "MetaData M {
-}// c
-MetaData N {
-}// d")).
-Eval vm_compute in ("<<<M958>>>" ++ check (runes_of_ascii "root packet A {
+Eval vm_compute in ("<<<M933>>>" ++ check (runes_of_ascii "MetaData M {
     u8 x `
-x`,
+`,
+    T t `
+`,
 }")).
-Eval vm_compute in ("<<<M1023>>>" ++ check (runes_of_ascii "packet A {
- u8 x `d" ++ [8239]%N ++ runes_of_ascii "`, // c" ++ [8239]%N ++ runes_of_ascii "
+Eval vm_compute in ("<<<M964>>>" ++ check (runes_of_ascii "root packet A {
+    u8 x `tab
+	x`,
 }")).
-Eval vm_compute in ("<<<M1065>>>" ++ check (runes_of_ascii "packet A {
-}// a// b// c
+Eval vm_compute in ("<<<M1439>>>" ++ check (runes_of_ascii "packet A {
+    repeat B b `d`,
+}")).
+Eval vm_compute in ("<<<M1053>>>" ++ check (runes_of_ascii "packet A {
+ u8 x `d" ++ [65279]%N ++ runes_of_ascii "`, // c" ++ [65279]%N ++ runes_of_ascii "
+}")).
+Eval vm_compute in ("<<<M1406>>>" ++ check (runes_of_ascii "// c
+
+MetaData
+tag
+{
+}
 ")).
-Eval vm_compute in ("<<<M770>>>" ++ check (runes_of_ascii "EJYa-@ZpfaJe_ojrLyZC9M")).
-Eval vm_compute in ("<<<M1136>>>" ++ check (runes_of_ascii "MetaData u { } // c
+Eval vm_compute in ("<<<M1930>>>" ++ check (runes_of_ascii "
+packet  A{ 
+}	// c 	
 ")).
-Eval vm_compute in ("<<<M992>>>" ++ check (runes_of_ascii "// c" ++ [133]%N ++ runes_of_ascii "
-packet A {
-}")).
-Eval vm_compute in ("<<<M1521>>>" ++ check (runes_of_ascii "MetaData roots {
-}")).
-Eval vm_compute in ("<<<M1806>>>" ++ check (runes_of_ascii "// c
-packet x {
-}")).
-Eval vm_compute in ("<<<M1693>>>" ++ check (runes_of_ascii "options {
-}")).
-Eval vm_compute in ("<<<M765>>>" ++ check (runes_of_ascii "/" ++ [65533; 65533; 65533]%N)).
+Eval vm_compute in ("<<<M1041>>>" ++ check (runes_of_ascii "packet A {
+}
+// c 	")).
+Eval vm_compute in ("<<<M1011>>>" ++ check (runes_of_ascii "packet A {
+}
+// c" ++ [8232]%N)).
+Eval vm_compute in ("<<<M974>>>" ++ check (runes_of_ascii "packet A {
+}// c ")).
+Eval vm_compute in ("<<<M46>>>" ++ check (runes_of_ascii "//x
+
+// a // b
+")).
+Eval vm_compute in ("<<<M29>>>" ++ check (runes_of_ascii "// " ++ [27880; 37322]%N ++ runes_of_ascii "
+
+")).
+Eval vm_compute in ("<<<M754>>>" ++ check (runes_of_ascii "Y )'")).
